@@ -5094,7 +5094,11 @@ class Entity(object, metaclass=EntityMeta):
                                                          "and 'cascade_delete' option of %s is not set"
                                                          % (obj, attr.name, attr))
                         elif isinstance(reverse, Set):
-                            if attr not in obj._vals_: continue
+                            if attr not in obj._vals_:
+                                # (a lazy reference of a loaded object: its owner's collection has to be told,
+                                # and to be told again if this delete is undone)
+                                if not attr.lazy or obj._status_ == 'created' or not obj._dbvals_: continue
+                                attr.load(obj)
                             val = get_val(attr)
                             if val is None: continue
                             reverse.reverse_remove((val,), obj, undo_funcs)
